@@ -4,6 +4,7 @@ From VQ Require Import Model.Inventory.
 From VQ.Gen Require Import inv_rpq.
 Import ListNotations.
 Open Scope string_scope.
-Lemma pin_inv_rpq : inv_rpq =
+Definition pinned_inv_rpq : list (string * kind * bool) :=
   [("rand_projs", Buffer, true)].
+Lemma pin_inv_rpq : inv_rpq = pinned_inv_rpq.
 Proof. reflexivity. Qed.
